@@ -56,10 +56,10 @@ theorem parseSelect_eq (T : PrecTables) (fuel : Nat) (s : PSt) :
           | fuel => rfl
           | ok fl s5 => rfl
 
-def eraseProj (ps : List (Option (List Char) × PExpr)) : List (Option (List Char) × PExpr) :=
+def eraseProjH (ps : List (Option (List Char) × PExpr)) : List (Option (List Char) × PExpr) :=
   ps.map (fun p => (p.1, p.2.eraseLoc))
 
-def HeadV.erase (h : HeadV) : HeadV := (h.1, default, eraseProj h.2.2.1, h.2.2.2.1, h.2.2.2.2)
+def HeadV.erase (h : HeadV) : HeadV := (h.1, default, eraseProjH h.2.2.1, h.2.2.2.1, h.2.2.2.2)
 
 /-! ### barrier equations -/
 
@@ -189,21 +189,21 @@ end swap
 
 /-! ### location independence -/
 
-theorem consumeString_strip (s : PSt) : consumeString s.strip = (consumeString s).strip id := by
+theorem consumeString_stripH (s : PSt) : consumeString s.strip = (consumeString s).strip id := by
   unfold consumeString
   simp only [strip_cur_tok]
   split
   · rw [next_strip]; cases next s <;> rfl
   · rfl
 
-theorem optDistinct_strip (s : PSt) : optDistinct s.strip = (optDistinct s).strip id := by
+theorem optDistinct_stripH (s : PSt) : optDistinct s.strip = (optDistinct s).strip id := by
   unfold optDistinct
   simp only [strip_cur_tok]
   by_cases hc : s.cur.tok = .kw .distinct
   · simp only [hc, if_true, next_strip]; cases next s <;> rfl
   · simp only [hc, if_false]; rfl
 
-theorem optAlias_strip (s : PSt) : optAlias s.strip = (optAlias s).strip id := by
+theorem optAlias_stripH (s : PSt) : optAlias s.strip = (optAlias s).strip id := by
   unfold optAlias
   simp only [strip_cur_tok]
   by_cases hc : s.cur.tok = .kw .as
@@ -214,7 +214,7 @@ theorem optAlias_strip (s : PSt) : optAlias s.strip = (optAlias s).strip id := b
     | ok a s1 => simp only [strip_ok, consumeIdentifier_strip]; cases consumeIdentifier s1 <;> rfl
   · simp only [hc, if_false]; rfl
 
-theorem optFile_strip (s : PSt) : optFile s.strip = (optFile s).strip id := by
+theorem optFile_stripH (s : PSt) : optFile s.strip = (optFile s).strip id := by
   unfold optFile
   simp only [strip_cur_tok]
   by_cases hc : s.cur.tok = .dcolon
@@ -222,14 +222,14 @@ theorem optFile_strip (s : PSt) : optFile s.strip = (optFile s).strip id := by
     cases next s with
     | err e s1 => rfl
     | fuel => rfl
-    | ok a s1 => simp only [strip_ok, consumeString_strip]; cases consumeString s1 <;> rfl
+    | ok a s1 => simp only [strip_ok, consumeString_stripH]; cases consumeString s1 <;> rfl
   · simp only [hc, if_false]; rfl
 
-theorem eraseProj_append (a b : List (Option (List Char) × PExpr)) : eraseProj (a ++ b) = eraseProj a ++ eraseProj b := by
-  simp [eraseProj]
+theorem eraseProj_appendH (a b : List (Option (List Char) × PExpr)) : eraseProjH (a ++ b) = eraseProjH a ++ eraseProjH b := by
+  simp [eraseProjH]
 
-theorem projLoop_strip (T : PrecTables) : ∀ (n : Nat) (acc : List (Option (List Char) × PExpr)) (s : PSt),
-    projLoop T n (eraseProj acc) s.strip = (projLoop T n acc s).strip eraseProj := by
+theorem projLoop_stripH (T : PrecTables) : ∀ (n : Nat) (acc : List (Option (List Char) × PExpr)) (s : PSt),
+    projLoop T n (eraseProjH acc) s.strip = (projLoop T n acc s).strip eraseProjH := by
   intro n
   induction n with
   | zero => intro acc s; rw [projLoop, projLoop]; rfl
@@ -240,7 +240,7 @@ theorem projLoop_strip (T : PrecTables) : ∀ (n : Nat) (acc : List (Option (Lis
     | err e s1 => rfl
     | fuel => rfl
     | ok e s1 =>
-      simp only [strip_ok, optAlias_strip]
+      simp only [strip_ok, optAlias_stripH]
       cases optAlias s1 with
       | err e s2 => rfl
       | fuel => rfl
@@ -253,14 +253,14 @@ theorem projLoop_strip (T : PrecTables) : ∀ (n : Nat) (acc : List (Option (Lis
           | fuel => rfl
           | ok a s3 =>
             simp only [strip_ok]
-            rw [← ih]; simp [eraseProj]
+            rw [← ih]; simp [eraseProjH]
         · simp only [hc, if_false]
           by_cases hf : s2.cur.tok = .kw .from
           · simp only [hf, if_true, next_strip]
             cases next s2 with
             | err e s3 => rfl
             | fuel => rfl
-            | ok a s3 => simp [PRes.strip, eraseProj]
+            | ok a s3 => simp [PRes.strip, eraseProjH]
           · simp only [hf, if_false]; rfl
 
 theorem selectHead_strip (T : PrecTables) (n : Nat) (s : PSt) :
@@ -271,14 +271,14 @@ theorem selectHead_strip (T : PrecTables) (n : Nat) (s : PSt) :
   | err e s1 => rfl
   | fuel => rfl
   | ok _ s1 =>
-    simp only [strip_ok, optDistinct_strip]
+    simp only [strip_ok, optDistinct_stripH]
     cases optDistinct s1 with
     | err e s2 => rfl
     | fuel => rfl
     | ok d s2 =>
       simp only [strip_ok, strip_cur_loc]
-      have := projLoop_strip T n [] s2
-      simp only [eraseProj, List.map_nil] at this
+      have := projLoop_stripH T n [] s2
+      simp only [eraseProjH, List.map_nil] at this
       rw [this]
       cases projLoop T n [] s2 with
       | err e s3 => rfl
@@ -289,7 +289,7 @@ theorem selectHead_strip (T : PrecTables) (n : Nat) (s : PSt) :
         | err e s4 => rfl
         | fuel => rfl
         | ok t s4 =>
-          simp only [strip_ok, optFile_strip]
+          simp only [strip_ok, optFile_stripH]
           cases optFile s4 <;> rfl
 
 /-! ### fuel, suffixes, appended tokens -/
